@@ -541,8 +541,7 @@ def check_tuple(ctx, batch, hdr, t, tag):
         ctx.cover("enc_error:" + real)
 
 
-def check_sweeps(ctx):
-    batch = Batch(ctx)
+def check_sweeps(ctx, batch):
     rng = ctx.rng
     for hdr in HDRS:
         for (i, w, s, ev) in sweep_fields(hdr):
@@ -563,7 +562,6 @@ def check_sweeps(ctx):
                 check_tuple(ctx, batch, hdr, t, "boundary")
                 ctx.nontrivial((hdr, i, v))
             ctx.cover(f"boundary:{hdr}[{i}]", len(bs))
-        batch.flush()
     # all HT x HST code points (valid) through the common header
     for ht in REF_HT:
         for hst in REF_HST[ht]:
@@ -592,11 +590,9 @@ def check_sweeps(ctx):
         for st in STS:
             for mid in (0, 1, (1 << 48) - 1, 0x0200_0000_0001, rng.randint(0, (1 << 48) - 1)):
                 check_tuple(ctx, batch, "ga", [m, st, mid], "addr")
-    batch.flush()
 
 
-def check_random(ctx):
-    batch = Batch(ctx)
+def check_random(ctx, batch):
     rng = ctx.rng
     n = ctx.scale(250, 6000)
     for hdr in HDRS:
@@ -608,13 +604,11 @@ def check_random(ctx):
             t = out_of_width(hdr, rng)
             if t is not None:
                 check_tuple(ctx, batch, hdr, t, "outofwidth")
-        batch.flush()
 
 
-def check_decoders(ctx):
+def check_decoders(ctx, batch):
     """decoder streams on raw octets: random (mostly non-conformant: reserved codes, reserved bits), every HT x HST
     nibble pair, every NH nibble, every ST code, short and over-long inputs (error stream)"""
-    batch = Batch(ctx)
     rng = ctx.rng
     n = ctx.scale(200, 5000)
 
@@ -649,7 +643,6 @@ def check_decoders(ctx):
         else:
             one(hdr, b"\x00" * 3 + bytes(rng.getrandbits(8) for _ in range(L)), "long-leading-zero")
             one(hdr, b"\x01" + bytes(rng.getrandbits(8) for _ in range(L)), "long")
-        batch.flush()
     # every HT/HST octet x every NH nibble (incl. reserved codes -> ValueError) in the common header
     for b0 in (range(256) if ctx.thorough else [(nh << 4) | rng.randint(0, 15) for nh in range(16)]):
         for b1 in range(256):
@@ -660,10 +653,9 @@ def check_decoders(ctx):
     for b0 in range(256):   # M, ST (all 32 codes), 2 reserved bits
         one("ga", bytes([b0]) + bytes(rng.getrandbits(8) for _ in range(7)), "st-codes")
     ctx.cover("dec:all-ht-hst-nibbles")
-    batch.flush()
 
 
-def check_spec_twin(ctx):
+def check_spec_twin(ctx, batch):
     """the Lean Spec (about which the theorems speak) and the Python reference codec (the run-time oracle) agree"""
     if not ctx.model_ok:
         return
@@ -682,10 +674,9 @@ def check_spec_twin(ctx):
             want.append(" ".join(str(v) for v in ref_unpack(REF_LAYOUT[hdr], b)))
             if ref_unpack(REF_LAYOUT[hdr], b) != r:
                 raise Infra(f"reference codec does not round-trip {hdr} {r}")
-    for mo, w, ln in zip(ctx.model("Wire", lines), want, lines):
+    for w, ln in zip(want, lines):
         ctx.evals()
-        if mo != w:
-            ctx.mismatch("spec-twin", ln[:200], w, mo)
+        batch.add("spec-twin", ln[:200], w, ln)
     ctx.cover("spec_twin_cases", len(lines))
 
 
@@ -965,14 +956,14 @@ def g_case(rng, kind, plain_mib=False):
             case["sought"][2] = rng.randint(1, (1 << 48) - 1)
     if kind == "lsr":
         case["ego"][3] = now_tst()
+        case["mib"][0] = 1   # the replier must accept the requester's packet (receivers check the version)
     return case
 
 
 KINDS = ["beacon", "shb", "gbc", "gac", "guc", "lsq", "lsr"]
 
 
-def run_packet_cases(ctx, cases, var, tag):
-    lines, reals = [], []
+def run_packet_cases(ctx, batch, cases, var, tag):
     for case in cases:
         try:
             sent = emit(case)
@@ -986,17 +977,12 @@ def run_packet_cases(ctx, cases, var, tag):
         ctx.cover(f"pkt:{case['kind']}:{tag}")
         ctx.nontrivial(("pkt", case["kind"], tuple(case["ego"]), tuple(case["mib"]), str(case.get("req"))))
         if len(sent) == 1:
-            lines.append(model_line(case, var))
-            reals.append((case, sent[0].hex()))
+            batch.add("pkt." + case["kind"], case, sent[0].hex(), model_line(case, var))
             if case["kind"] != "beacon":
                 ctx.sample("packet:" + case["kind"], {"case": case, "wire": sent[0].hex(), "oracle": [w for w, _ in res] or "conforms"}, per_kind=1)
-    if ctx.model_ok and lines:
-        for (case, real), mo in zip(reals, ctx.model("Wire", lines)):
-            if mo != real:
-                ctx.mismatch("pkt." + case["kind"], case, real, mo)
 
 
-def check_packets(ctx, var):
+def check_packets(ctx, batch, var):
     rng = ctx.rng
     n = ctx.scale(120, 2500)
     cases = []
@@ -1022,7 +1008,7 @@ def check_packets(ctx, var):
         c = g_case(rng, "shb", plain_mib=True)
         c["req"]["tc"] = [tc >> 7, (tc >> 6) & 1, tc & 63]
         cases.append(c)
-    run_packet_cases(ctx, cases, var, "orig")
+    run_packet_cases(ctx, batch, cases, var, "orig")
 
 
 # ---- forwarding ---------------------------------------------------------------------------------------
@@ -1094,9 +1080,8 @@ def judge_forward(ctx, case, sent, report=True):
     return out
 
 
-def check_forwarding(ctx):
+def check_forwarding(ctx, batch):
     rng = ctx.rng
-    lines, reals = [], []
     for kind in ("tsb", "gbc", "gac", "guc", "lsq", "lsr"):
         for _ in range(ctx.scale(60, 1500)):
             case = build_fwd_case(rng, kind)
@@ -1110,18 +1095,12 @@ def check_forwarding(ctx):
             ctx.cover(f"fwd:{kind}")
             ctx.nontrivial(("fwd", case["pkt"]))
             if len(sent) == 1:
-                lines.append(f"pkt fwd {case['pkt']}")
-                reals.append((case, sent[0].hex()))
+                batch.add("pkt.fwd." + case["orig"], case, sent[0].hex(), f"pkt fwd {case['pkt']}")
                 ctx.sample("forward:" + kind, {"received": case["pkt"], "forwarded": sent[0].hex()}, per_kind=1)
-    if ctx.model_ok and lines:
-        for (case, real), mo in zip(reals, ctx.model("Wire", lines)):
-            if mo != real:
-                ctx.mismatch("pkt.fwd." + case["orig"], case, real, mo)
 
 
 # =====================================================================================================
-def run_corpus(ctx, var):
-    batch = Batch(ctx)
+def run_corpus(ctx, batch, var):
     pk = []
     for name, c in corpus("C02"):
         case = c.get("case", c)
@@ -1134,8 +1113,7 @@ def run_corpus(ctx, var):
             sent = forward(case["case"])
             judge_forward(ctx, case["case"], sent)
         ctx.cover("corpus_cases")
-    batch.flush()
-    run_packet_cases(ctx, pk, var, "corpus")
+    run_packet_cases(ctx, batch, pk, var, "corpus")
 
 
 def run(ctx):
@@ -1150,15 +1128,18 @@ def run(ctx):
     router_mod.Timer = _NoTimer
     try:
         with rs.VClock(NOW_MS):
-            run_corpus(ctx, var)
-            check_spec_twin(ctx)
-            check_sweeps(ctx)
-            check_random(ctx)
-            check_decoders(ctx)
-            check_packets(ctx, var)
-            check_forwarding(ctx)
+            batch = Batch(ctx)
+            run_corpus(ctx, batch, var)
+            check_spec_twin(ctx, batch)
+            check_sweeps(ctx, batch)
+            check_random(ctx, batch)
+            check_decoders(ctx, batch)
+            check_packets(ctx, batch, var)
+            check_forwarding(ctx, batch)
     finally:
         router_mod.Timer = threading.Timer
+    ctx.cover("model_lines", len(batch.items))
+    batch.flush()   # ONE driver call for the whole run (driver start-up dominates otherwise)
     if ctx.thorough:
         ctx.exhaustive = True   # every <=16-bit field of every header enumerated completely (other fields random)
 
@@ -1171,12 +1152,14 @@ def search(ctx):
     try:
         with rs.VClock(NOW_MS):
             var = variant()
+            batch = Batch(ctx)
             for _ in range(3):
-                check_sweeps(ctx)
-                check_random(ctx)
-                check_decoders(ctx)
-                check_packets(ctx, var)
-                check_forwarding(ctx)
+                check_sweeps(ctx, batch)
+                check_random(ctx, batch)
+                check_decoders(ctx, batch)
+                check_packets(ctx, batch, var)
+                check_forwarding(ctx, batch)
+                batch.items = []
                 if ctx.violations:
                     break
     finally:
@@ -1185,7 +1168,7 @@ def search(ctx):
 
 
 def replay(ctx, obj):
-    case = obj.get("case", obj)
+    case = obj if "kind" in obj else obj["case"]   # corpus files hold the bare case, replay files wrap it
     kind = case.get("kind")
     if kind in ("enc", "dec"):
         hdr, t = case["hdr"], case["fields"]
@@ -1233,7 +1216,7 @@ def replay(ctx, obj):
                         print(("KNOWN " + fid + ": " if fid in known else "") + w)
                     if not res:
                         print("packet conforms")
-                    return any(fid not in known for _, fid in res)
+                    return bool(res)   # a known finding's witness still violates the property (it is only not *reported* by run)
                 try:
                     sent = forward(case["case"])
                 except Exception as e:  # noqa: BLE001
